@@ -113,6 +113,23 @@ func mutants(src string) []string {
 	out = append(out, strings.ReplaceAll(strings.ReplaceAll(src, "f0: ", "zq0: "), ".f1", ".zq1"))
 	// type mismatches at many bindings
 	out = append(out, strings.ReplaceAll(strings.ReplaceAll(src, "in  int ", "in  string[] "), "in  string ", "in  map<int> "))
+	// (a valid text) a comment before every binding whose value is a map or struct
+	// literal written on one line: the formatter has to attach it to something
+	{
+		var ls []string
+		for _, l := range strings.Split(src, "\n") {
+			if strings.Contains(l, " = {") && strings.Contains(l, ": ") && strings.HasSuffix(l, "},") {
+				ind := l[:len(l)-len(strings.TrimLeft(l, " "))]
+				ls = append(ls, ind+"# about the next value")
+				// ... and one inside the literal, before its entries (all on one line)
+				i := strings.Index(l, " = {")
+				ls = append(ls, l[:i+4], ind+"    # about the entries", ind+"    "+l[i+4:len(l)-2], ind+"},")
+				continue
+			}
+			ls = append(ls, l)
+		}
+		out = append(out, strings.Join(ls, "\n"))
+	}
 	// retained parameters that do not exist / are repeated
 	out = append(out, strings.ReplaceAll(src, ") retain (\n", ") retain (\n    nope1,\n    nope0,\n"))
 	return out
